@@ -1,50 +1,38 @@
 import RzilVerif.Model.Grammar
 /-!
-# C17 — round trip of the reference precedence parser over the minimal-parenthesis printer
+# C17 — round trip of the reference parser over the minimal printer (expressions and statements)
 
-Main results (all for trees of unbounded depth, every constructor including calls):
+Main results (all for trees of unbounded depth, every constructor including calls and the GCC
+statement-expression `({ … })`, whose body makes expressions and statements mutually recursive):
 
 * `refParse_print   : WF e = true → refParseAll (printE e) = some e`
 * `print_injective  : WF a = true → WF b = true → printE a = printE b → a = b`
 * precedence / associativity facts: `decide`d token-level examples and the general lemmas
   `sub_left_assoc`, `assign_right_assoc`, `tern_right_assoc`, `neg_mul`, `cast_add`, `and_land`,
   `not_eq` for arbitrary well-formed operands.
+* the statement-level consequences of the same induction (`refParseStmt_print`, the else-binding
+  lemmas) are stated in `Props/C17Stmt.lean`.
 
 Proof plan: fuel is hidden behind `PEv k ts x n := ∀ f > n, pExpr f k ts = some x` (and `MEv`,
-`PoEv`, `AEv` for the binary loop, the postfix loop and the argument list); the bound `n` is
-explicit (`20 * tokens + 16 - level`) because `refParseAll` runs with the concrete fuel
+`PoEv`, `AEv` for the binary loop, the postfix loop and the argument list; `SEv`, `IEv`, `ItsEv` for
+statements, block items and item lists); the bound `n` is explicit (`20 * tokens + 16 - level`,
+`20 * tokens` for statements) because `refParseAll`/`refParseStmt` run with the concrete fuel
 `20 * tokens + 20`.  `H c r` says that the head of the rest `r` does not continue an expression of
-level `c`.  One lemma per grammar alternative (`prim_atom`, `prim_paren`, `step_un`, `step_cast`,
-`many_stop`, `many_step`, `cond_step`, `asg_step`, …), `descend`/`descend_to` to go from a tight
-level down to a looser one, then structural induction on the tree proving simultaneously
-`Q` (parse `pr c e` at level `c`), `R` (continue the binary loop of level `k` after `pr k e`) and
-`RP` (continue the postfix loop after `pr 14 e`).
+level `c`; `NoElse r` that it is not `else`.  One lemma per grammar alternative (`prim_atom`,
+`prim_paren`, `prim_stmtExpr`, `step_un`, `step_cast`, `many_stop`, `many_step`, `cond_step`,
+`asg_step`, `stmt_if`, `stmt_ifElse`, `stmt_for`, `stmt_block`, `item_decl`, `items_cons`, …),
+`descend`/`descend_to` to go from a tight level down to a looser one, then ONE structural induction
+on the mutual types (`main`, principle `CExpr.ind2`) proving simultaneously `Q` (parse `pr c e` at
+level `c`), `R` (continue the binary loop of level `k` after `pr k e`), `RP` (continue the postfix
+loop after `pr 14 e`), `QS` (parse `prS s` in statement position; if `s` ends in an else-less `if`
+the rest must not start with `else`) and `QI` (the same in block-item position).
 
 The auxiliary lemmas below are implications between parser facts; their hypotheses are discharged
-inside `main`, whose only hypothesis is `WF e` (non-vacuity examples follow the main theorems).
+inside `main`, whose only hypotheses are `WF e` / `SWFp _ s` (non-vacuity examples follow the main
+theorems).
 -/
 namespace Rzil.Grammar
 open CExpr GTok
-
-/-! ## Induction principle for the nested inductive `CExpr` -/
-
-theorem CExpr.ind {P : CExpr → Prop}
-    (atom : ∀ s, P (.atom s))
-    (call : ∀ f args, (∀ a ∈ args, P a) → P (.call f args))
-    (post : ∀ o a, P a → P (.post o a))
-    (un : ∀ o a, P a → P (.un o a))
-    (cast : ∀ t a, P a → P (.cast t a))
-    (bin : ∀ o a b, P a → P b → P (.bin o a b))
-    (tern : ∀ c a b, P c → P a → P b → P (.tern c a b))
-    (assign : ∀ o a b, P a → P b → P (.assign o a b)) : ∀ e, P e := by
-  intro e
-  refine CExpr.rec (motive_1 := P) (motive_2 := fun l => ∀ a ∈ l, P a)
-    atom call post un cast bin tern assign ?_ ?_ e
-  · intro a h; cases h
-  · intro hd tl h1 h2 a ha
-    cases ha with
-    | head => exact h1
-    | tail _ h => exact h2 a h
 
 /-! ## "Eventually succeeds" predicates (fuel hidden behind an explicit lower bound) -/
 
@@ -140,7 +128,15 @@ theorem prim_paren {ts x u r n} (h : PEv 0 ts (x, u, .rp :: r) n) :
     PEv 15 (.lp :: ts) (x, true, r) (n + 1) := by
   intro f hf
   obtain ⟨f, rfl⟩ : ∃ g, f = g + 1 := ⟨f - 1, by omega⟩
-  simp [pExpr, h f (by omega)]
+  have h1 := h f (by omega)
+  have hb : ts.head? ≠ some (.op "{") := by
+    intro e
+    cases ts with
+    | nil => cases e
+    | cons t ts =>
+      simp at e; subst e
+      rw [pExpr_badHead _ _ _ _ (by decide)] at h1; cases h1
+  simp [pExpr, h1, hb]
 
 theorem prim_call0 {s r} : PEv 15 (.atom s :: .lp :: .rp :: r) (.call s [], true, r) 0 := by
   intro f hf
@@ -634,6 +630,354 @@ theorem Q_call {f args} (hq : ∀ a ∈ args, Q a) : Q (.call f args) := by
     refine PEv.mono h1 ?_
     omega
 
+/-! ## Statement level
+
+Statements, block items and item lists get their own "eventually succeeds" predicates.  The only
+context condition of the statement level is the else binding: the text of a statement that ends in
+an else-less `if` (`CStmt.openIf`) must not be followed by an `else` token (`NoElse`), because the
+parser gives that token to the nearest `if`. -/
+
+def SEv (ts : List GTok) (x : CStmt × List GTok) (n : Nat) : Prop :=
+  ∀ f, n < f → pStmt f ts = some x
+def IEv (ts : List GTok) (x : CStmt × List GTok) (n : Nat) : Prop :=
+  ∀ f, n < f → pItem f ts = some x
+def ItsEv (ts : List GTok) (x : List CStmt × List GTok) (n : Nat) : Prop :=
+  ∀ f, n < f → pItems f ts = some x
+
+theorem SEv.mono {ts x n n'} (h : SEv ts x n) (hn : n ≤ n') : SEv ts x n' :=
+  fun f hf => h f (by omega)
+theorem IEv.mono {ts x n n'} (h : IEv ts x n) (hn : n ≤ n') : IEv ts x n' :=
+  fun f hf => h f (by omega)
+theorem ItsEv.mono {ts x n n'} (h : ItsEv ts x n) (hn : n ≤ n') : ItsEv ts x n' :=
+  fun f hf => h f (by omega)
+
+/-- The rest does not start with `else`. -/
+def NoElse (r : List GTok) : Prop := r.head? ≠ some (.op "else")
+
+/-! ### Inversion: what cannot start an expression / a statement -/
+
+theorem pExpr_nil : ∀ f k, pExpr f k [] = none := by
+  intro f
+  induction f with
+  | zero => intro k; simp [pExpr]
+  | succ f ih => intro k; simp [pExpr, ih]
+
+/-- Punctuation and reserved words of the statement level. -/
+def stmtWord (s : String) : Bool := s == ";" || s == "{" || s == "if" || s == "for"
+
+theorem pStmt_badOp (f s r) (hu : isUnOp s = false) (hw : stmtWord s = false) :
+    pStmt f (.op s :: r) = none := by
+  cases f with
+  | zero => simp [pStmt]
+  | succ f =>
+    simp [stmtWord] at hw
+    simp [pStmt, hw, pExpr_badHead _ _ (.op s) r (by simp [badHead, hu]), exprStmtOf]
+
+theorem pStmt_ty (f t r) : pStmt f (.ty t :: r) = none := by
+  cases f <;> simp [pStmt, pExpr_ty, exprStmtOf]
+
+theorem pStmt_nil (f) : pStmt f [] = none := by
+  cases f <;> simp [pStmt, pExpr_nil, exprStmtOf]
+
+theorem pItem_badOp (f s r) (hu : isUnOp s = false) (hw : stmtWord s = false) :
+    pItem f (.op s :: r) = none := by
+  cases f <;> simp [pItem, pStmt_badOp _ _ _ hu hw]
+
+theorem pItem_nil (f) : pItem f [] = none := by
+  cases f <;> simp [pItem, pStmt_nil]
+
+/-! ### One-step lemmas, one per statement alternative -/
+
+theorem prim_stmtExpr {ts items its e r n} (h : ItsEv ts (items, .rp :: r) n)
+    (hu : unsnocExpr items = some (its, e)) :
+    PEv 15 (.lp :: .op "{" :: ts) (.stmtExpr its e, true, r) (n + 1) := by
+  intro f hf
+  obtain ⟨f, rfl⟩ : ∃ g, f = g + 1 := ⟨f - 1, by omega⟩
+  simp [pExpr, h f (by omega), hu]
+
+theorem stmt_empty {r} : SEv (.op ";" :: r) (.empty, r) 0 := by
+  intro f hf
+  obtain ⟨f, rfl⟩ : ∃ g, f = g + 1 := ⟨f - 1, by omega⟩
+  simp [pStmt]
+
+theorem stmt_block {ts items r n} (h : ItsEv ts (items, r) n) :
+    SEv (.op "{" :: ts) (.block items, r) (n + 1) := by
+  intro f hf
+  obtain ⟨f, rfl⟩ : ∃ g, f = g + 1 := ⟨f - 1, by omega⟩
+  simp [pStmt, h f (by omega)]
+
+theorem stmt_expr {ts e u r n} (h : PEv 0 ts (e, u, .op ";" :: r) n) :
+    SEv ts (.expr e, r) (n + 1) := by
+  intro f hf
+  obtain ⟨f, rfl⟩ : ∃ g, f = g + 1 := ⟨f - 1, by omega⟩
+  have h1 := h f (by omega)
+  cases ts with
+  | nil => simp [pStmt, h1, exprStmtOf]
+  | cons t ts =>
+    cases t with
+    | op s =>
+      have hu : isUnOp s = true := by
+        cases hs : isUnOp s
+        · rw [pExpr_badHead _ _ (.op s) ts (by simp [badHead, hs])] at h1; cases h1
+        · rfl
+      have h1' : s ≠ ";" := by intro e; subst e; revert hu; decide
+      have h2 : s ≠ "{" := by intro e; subst e; revert hu; decide
+      have h3 : s ≠ "if" := by intro e; subst e; revert hu; decide
+      have h4 : s ≠ "for" := by intro e; subst e; revert hu; decide
+      simp [pStmt, h1, h1', h2, h3, h4, exprStmtOf]
+    | _ => simp [pStmt, h1, exprStmtOf]
+
+theorem stmt_if {ts c u r2 t r3 n m} (hc : PEv 0 ts (c, u, .rp :: r2) n)
+    (ht : SEv r2 (t, r3) m) (hr : NoElse r3) :
+    SEv (.op "if" :: .lp :: ts) (.if_ c t, r3) (max n m + 1) := by
+  intro f hf
+  obtain ⟨f, rfl⟩ : ∃ g, f = g + 1 := ⟨f - 1, by omega⟩
+  unfold NoElse at hr
+  simp [pStmt, hc f (by omega), ht f (by omega), hr]
+
+theorem stmt_ifElse {ts c u r2 t r3 e r4 n m k} (hc : PEv 0 ts (c, u, .rp :: r2) n)
+    (ht : SEv r2 (t, .op "else" :: r3) m) (he : SEv r3 (e, r4) k) :
+    SEv (.op "if" :: .lp :: ts) (.ifElse c t e, r4) (max n (max m k) + 1) := by
+  intro f hf
+  obtain ⟨f, rfl⟩ : ∃ g, f = g + 1 := ⟨f - 1, by omega⟩
+  simp [pStmt, hc f (by omega), ht f (by omega), he f (by omega)]
+
+theorem stmt_for {ts i ui r2 c uc r3 s us r4 b r5 n1 n2 n3 n4}
+    (hi : PEv 0 ts (i, ui, .op ";" :: r2) n1) (hc : PEv 0 r2 (c, uc, .op ";" :: r3) n2)
+    (hs : PEv 0 r3 (s, us, .rp :: r4) n3) (hb : SEv r4 (b, r5) n4) :
+    SEv (.op "for" :: .lp :: ts) (.for_ i c s b, r5) (max (max n1 n2) (max n3 n4) + 1) := by
+  intro f hf
+  obtain ⟨f, rfl⟩ : ∃ g, f = g + 1 := ⟨f - 1, by omega⟩
+  simp [pStmt, hi f (by omega), hc f (by omega), hs f (by omega), hb f (by omega)]
+
+theorem item_decl {t x r} : IEv (.ty t :: .atom x :: .op ";" :: r) (.decl t x, r) 0 := by
+  intro f hf
+  obtain ⟨f, rfl⟩ : ∃ g, f = g + 1 := ⟨f - 1, by omega⟩
+  simp [pItem]
+
+theorem item_declInit {t x ts e u r n} (h : PEv 0 ts (e, u, .op ";" :: r) n) :
+    IEv (.ty t :: .atom x :: .op "=" :: ts) (.declInit t x e, r) (n + 1) := by
+  intro f hf
+  obtain ⟨f, rfl⟩ : ∃ g, f = g + 1 := ⟨f - 1, by omega⟩
+  simp [pItem, h f (by omega)]
+
+theorem item_stmt {ts x n} (h : SEv ts x n) : IEv ts x (n + 1) := by
+  intro f hf
+  obtain ⟨f, rfl⟩ : ∃ g, f = g + 1 := ⟨f - 1, by omega⟩
+  have h1 := h f (by omega)
+  cases ts with
+  | nil => simp [pItem, h1]
+  | cons t ts =>
+    cases t with
+    | ty t => rw [pStmt_ty] at h1; cases h1
+    | _ => simp [pItem, h1]
+
+theorem items_nil {r} : ItsEv (.op "}" :: r) ([], r) 0 := by
+  intro f hf
+  obtain ⟨f, rfl⟩ : ∃ g, f = g + 1 := ⟨f - 1, by omega⟩
+  simp [pItems]
+
+theorem items_cons {ts s r ss r' n m} (h : IEv ts (s, r) n) (h2 : ItsEv r (ss, r') m) :
+    ItsEv ts (s :: ss, r') (max n m + 1) := by
+  intro f hf
+  obtain ⟨f, rfl⟩ : ∃ g, f = g + 1 := ⟨f - 1, by omega⟩
+  have h1 := h f (by omega)
+  have hb : ts.head? ≠ some (.op "}") := by
+    intro e
+    cases ts with
+    | nil => cases e
+    | cons t ts =>
+      simp at e; subst e
+      rw [pItem_badOp _ _ _ (by decide) (by decide)] at h1; cases h1
+  simp [pItems, hb, h1, h2 f (by omega)]
+
+theorem unsnocExpr_append (items : List CStmt) (e : CExpr) :
+    unsnocExpr (items ++ [.expr e]) = some (items, e) := by
+  induction items with
+  | nil => simp [unsnocExpr]
+  | cons s rest ih =>
+    cases rest with
+    | nil => cases s <;> simp [unsnocExpr]
+    | cons s' rest' =>
+      simp only [List.cons_append] at ih ⊢
+      simp [unsnocExpr, ih]
+
+theorem prItems_append (a b : List CStmt) : prItems (a ++ b) = prItems a ++ prItems b := by
+  induction a with
+  | nil => simp [prItems]
+  | cons s rest ih => simp [prItems, ih]
+
+/-! ### The statement predicates of the main induction -/
+
+/-- Parsing the text of `s` in statement position gives `s` back, whatever follows — except that
+    an `else` must not follow a statement ending in an else-less `if`. -/
+def QS (s : CStmt) : Prop :=
+  ∀ r, (s.openIf = true → NoElse r) → SEv (prS s ++ r) (s, r) (20 * (prS s).length)
+/-- The same in block-item position. -/
+def QI (s : CStmt) : Prop :=
+  ∀ r, (s.openIf = true → NoElse r) → IEv (prS s ++ r) (s, r) (20 * (prS s).length + 1)
+
+theorem QI_of_QS {s} (h : QS s) : QI s := fun r hr => item_stmt (h r hr)
+
+/-- The text of an item is not empty and does not start with `else` (otherwise the parser, which
+    succeeds on it, would fail). -/
+theorem QI_head {s} (h : QI s) : ∃ t rest, prS s = t :: rest ∧ t ≠ .op "else" := by
+  have h1 := h [] (fun _ => by simp [NoElse]) (20 * (prS s).length + 2) (by omega)
+  rw [List.append_nil] at h1
+  cases hp : prS s with
+  | nil => rw [hp, pItem_nil] at h1; cases h1
+  | cons t rest =>
+    refine ⟨t, rest, rfl, ?_⟩
+    intro e; subst e
+    rw [hp, pItem_badOp _ _ _ (by decide) (by decide)] at h1; cases h1
+
+theorem QI_noElse {s} (h : QI s) (r) : NoElse (prS s ++ r) := by
+  obtain ⟨t, rest, hp, ht⟩ := QI_head h
+  simp [NoElse, hp, ht]
+
+theorem QI_len {s} (h : QI s) : 1 ≤ (prS s).length := by
+  obtain ⟨t, rest, hp, _⟩ := QI_head h
+  simp [hp]
+
+theorem items_all : ∀ (items : List CStmt) (r : List GTok), (∀ s ∈ items, QI s) →
+    ItsEv (prItems items ++ .op "}" :: r) (items, r) (20 * (prItems items).length + 2)
+  | [], r, _ => by
+    simp only [prItems, List.nil_append]
+    exact items_nil.mono (by omega)
+  | s :: rest, r, h => by
+    have ih := items_all rest r (fun x hx => h x (by simp [hx]))
+    have hne : NoElse (prItems rest ++ .op "}" :: r) := by
+      cases rest with
+      | nil => simp [NoElse, prItems]
+      | cons s' rest' =>
+        simp only [prItems, List.append_assoc]
+        exact QI_noElse (h s' (by simp)) _
+    have h1 := h s (by simp) (prItems rest ++ .op "}" :: r) (fun _ => hne)
+    have hl := QI_len (h s (by simp))
+    have h2 := items_cons h1 ih
+    have e1 : prItems (s :: rest) ++ .op "}" :: r = prS s ++ (prItems rest ++ .op "}" :: r) := by
+      simp [prItems]
+    rw [e1]
+    refine h2.mono ?_
+    simp only [prItems, List.length_append]; omega
+
+theorem pr_zero (e) : pr 0 e = body e := pr_of_le (Nat.zero_le _)
+
+theorem contLevel_semi : contLevel (.op ";") = none := by decide
+
+theorem H_semi (c r) : H c (.op ";" :: r) := by
+  intro l hl; rw [contLevel_semi] at hl; cases hl
+theorem H_rp (c r) : H c (.rp :: r) := by
+  intro l hl; cases hl
+
+/-! ### The constructor cases of the statement level -/
+
+theorem QS_expr {e} (q : Q e) : QS (.expr e) := by
+  intro r _
+  have h1 := stmt_expr (q 0 (.op ";" :: r) (by omega) (H_semi _ _))
+  rw [pr_zero] at h1
+  have e1 : prS (.expr e) ++ r = body e ++ .op ";" :: r := by simp [prS]
+  rw [e1]
+  refine h1.mono ?_
+  simp [prS]; omega
+
+theorem QS_empty : QS .empty := by
+  intro r _
+  simp only [prS, List.cons_append, List.nil_append]
+  exact stmt_empty.mono (by omega)
+
+theorem QS_block {items} (h : ∀ s ∈ items, QI s) : QS (.block items) := by
+  intro r _
+  have h1 := stmt_block (items_all items r h)
+  have e1 : prS (.block items) ++ r = .op "{" :: (prItems items ++ .op "}" :: r) := by simp [prS]
+  rw [e1]
+  refine h1.mono ?_
+  simp [prS]; omega
+
+theorem QS_if {c t} (qc : Q c) (qt : QS t) : QS (.if_ c t) := by
+  intro r hr
+  have hr' : NoElse r := hr (by simp [CStmt.openIf])
+  have h1 := qc 0 (.rp :: (prS t ++ r)) (by omega) (H_rp _ _)
+  rw [pr_zero] at h1
+  have h2 := qt r (fun _ => hr')
+  have h3 := stmt_if h1 h2 hr'
+  have e1 : prS (.if_ c t) ++ r = .op "if" :: .lp :: (body c ++ .rp :: (prS t ++ r)) := by
+    simp [prS]
+  rw [e1]
+  refine h3.mono ?_
+  simp [prS]; omega
+
+theorem QS_ifElse {c t e} (qc : Q c) (qt : QS t) (qe : QS e) (hcl : t.openIf = false) :
+    QS (.ifElse c t e) := by
+  intro r hr
+  have hr' : e.openIf = true → NoElse r := fun h => hr (by simpa [CStmt.openIf] using h)
+  have h3 := qe r hr'
+  have h2 := qt (.op "else" :: (prS e ++ r)) (fun h => by rw [hcl] at h; cases h)
+  have h1 := qc 0 (.rp :: (prS t ++ .op "else" :: (prS e ++ r))) (by omega) (H_rp _ _)
+  rw [pr_zero] at h1
+  have h4 := stmt_ifElse h1 h2 h3
+  have e1 : prS (.ifElse c t e) ++ r
+      = .op "if" :: .lp :: (body c ++ .rp :: (prS t ++ .op "else" :: (prS e ++ r))) := by
+    simp [prS, hcl]
+  rw [e1]
+  refine h4.mono ?_
+  simp [prS, hcl]; omega
+
+theorem QS_for {i c s b} (qi : Q i) (qc : Q c) (qs : Q s) (qb : QS b) : QS (.for_ i c s b) := by
+  intro r hr
+  have h4 := qb r (fun h => hr (by simpa [CStmt.openIf] using h))
+  have h3 := qs 0 (.rp :: (prS b ++ r)) (by omega) (H_rp _ _)
+  have h2 := qc 0 (.op ";" :: (body s ++ .rp :: (prS b ++ r))) (by omega) (H_semi _ _)
+  have h1 := qi 0 (.op ";" :: (body c ++ .op ";" :: (body s ++ .rp :: (prS b ++ r)))) (by omega)
+    (H_semi _ _)
+  rw [pr_zero] at h1 h2 h3
+  have h5 := stmt_for h1 h2 h3 h4
+  have e1 : prS (.for_ i c s b) ++ r
+      = .op "for" :: .lp :: (body i ++ .op ";" :: (body c ++ .op ";" :: (body s ++ .rp ::
+          (prS b ++ r)))) := by
+    simp [prS]
+  rw [e1]
+  refine h5.mono ?_
+  simp [prS]; omega
+
+theorem QI_decl (t x) : QI (.decl t x) := by
+  intro r _
+  simp only [prS, List.cons_append, List.nil_append]
+  exact item_decl.mono (by omega)
+
+theorem QI_declInit {t x e} (q : Q e) : QI (.declInit t x e) := by
+  intro r _
+  have h1 := item_declInit (t := t) (x := x) (q 0 (.op ";" :: r) (by omega) (H_semi _ _))
+  rw [pr_zero] at h1
+  have e1 : prS (.declInit t x e) ++ r = .ty t :: .atom x :: .op "=" :: (body e ++ .op ";" :: r) := by
+    simp [prS]
+  rw [e1]
+  refine h1.mono ?_
+  simp [prS]; omega
+
+/-- The statement-expression `({ items e; })` as a primary expression. -/
+theorem Q_stmtExpr {items e} (h : ∀ s ∈ items, QI s) (q : Q e) : Q (.stmtExpr items e) := by
+  apply Q_of_body
+  intro c r _ hc hr
+  have hall : ∀ s ∈ items ++ [.expr e], QI s := by
+    intro s hs
+    rcases List.mem_append.mp hs with h1 | h1
+    · exact h s h1
+    · obtain rfl : s = .expr e := by simpa using h1
+      exact QI_of_QS (QS_expr q)
+  have h0 := items_all (items ++ [.expr e]) (.rp :: r) hall
+  have h1 := prim_stmtExpr h0 (unsnocExpr_append items e)
+  have h2 := descend_to hc (Nat.le_refl _) h1 hr
+  have e1 : body (.stmtExpr items e) ++ r
+      = .lp :: .op "{" :: (prItems (items ++ [.expr e]) ++ .op "}" :: .rp :: r) := by
+    simp [body, prItems_append, prItems, prS]
+  have e2 : (body (.stmtExpr items e)).length = (prItems (items ++ [.expr e])).length + 4 := by
+    simp [body, prItems_append, prItems, prS]; omega
+  rw [e1, e2]
+  simp only [prec]
+  refine PEv.mono h2 ?_
+  omega
+
 /-! ## Main induction -/
 
 theorem WF_call {f args} (h : WF (.call f args) = true) : ∀ a ∈ args, WF a = true := by
@@ -648,54 +992,90 @@ theorem WF_call {f args} (h : WF (.call f args) = true) : ∀ a ∈ args, WF a =
     | head => exact h'.1
     | tail _ hm => exact ih h'.2 a hm
 
-theorem main (e : CExpr) : WF e = true → Q e ∧ R e ∧ RP e := by
-  induction e using CExpr.ind with
-  | atom s =>
-    intro _
+theorem WF_items {items} (h : IWFs items = true) : ∀ s ∈ items, SWFp true s = true := by
+  induction items with
+  | nil => intro a ha; cases ha
+  | cons x xs ih =>
+    simp [IWFs] at h
+    intro a ha
+    cases ha with
+    | head => exact h.1
+    | tail _ hm => exact ih h.2 a hm
+
+/-- Statement part of the induction: statement position and block-item position. -/
+def PSt (s : CStmt) : Prop := (SWFp false s = true → QS s) ∧ (SWFp true s = true → QI s)
+
+theorem PSt_of {s} (h : ∀ b, SWFp b s = true → QS s) : PSt s :=
+  ⟨h false, fun hw => QI_of_QS (h true hw)⟩
+
+theorem main : (∀ e, WF e = true → Q e ∧ R e ∧ RP e) ∧ (∀ s, PSt s) := by
+  apply CExpr.ind2 (P := fun e => WF e = true → Q e ∧ R e ∧ RP e) (S := PSt)
+  · intro s _
     have q := Q_atom s
     exact ⟨q, R_of_Q' q (by simp [prec]), RP_of_Q' q (by simp [prec])⟩
-  | call f args ih =>
-    intro h
+  · intro f args ih h
     have q : Q (.call f args) := Q_call (fun a ha => (ih a ha (WF_call h a ha)).1)
     exact ⟨q, R_of_Q' q (by simp [prec]), RP_of_Q' q (by simp [prec])⟩
-  | post o a ih =>
-    intro h
+  · intro o a ih h
     simp [WF] at h
     have rp := RP_post h.1 (ih h.2).2.2
     have q := Q_post h.1 (ih h.2).2.2
     exact ⟨q, R_of_Q' q (by simp [prec]), rp⟩
-  | un o a ih =>
-    intro h
+  · intro o a ih h
     simp [WF] at h
     have q := Q_un h.1 (ih h.2).1
     exact ⟨q, R_of_Q' q (by simp [prec]), RP_of_Q' q (by simp [prec])⟩
-  | cast t a ih =>
-    intro h
+  · intro t a ih h
     simp [WF] at h
     have q := Q_cast (t := t) (ih h).1
     exact ⟨q, R_of_Q' q (by simp [prec]), RP_of_Q' q (by simp [prec])⟩
-  | bin o a b iha ihb =>
-    intro h
+  · intro o a b iha ihb h
     simp [WF] at h
     obtain ⟨l, hl⟩ := Option.isSome_iff_exists.mp h.1.1
     have qr := QR_bin (a := a) (b := b) hl (iha h.1.2).2.1 (ihb h.2).1
     have := binLevel_le hl
     exact ⟨qr.1, qr.2, RP_of_Q' qr.1 (by simp [prec, hl]; omega)⟩
-  | tern c a b ihc iha ihb =>
-    intro h
+  · intro c a b ihc iha ihb h
     simp [WF] at h
     have q := Q_tern (ihc h.1.1).1 (iha h.1.2).1 (ihb h.2).1
     exact ⟨q, R_of_Q' q (by simp [prec]), RP_of_Q' q (by simp [prec])⟩
-  | assign o a b iha ihb =>
-    intro h
+  · intro o a b iha ihb h
     simp [WF] at h
     have q := Q_assign h.1.1 (iha h.1.2).1 (ihb h.2).1
     exact ⟨q, R_of_Q' q (by simp [prec]), RP_of_Q' q (by simp [prec])⟩
+  · intro items e ihs ihe h
+    simp [WF] at h
+    have q := Q_stmtExpr (fun s hs => (ihs s hs).2 (WF_items h.1 s hs)) (ihe h.2).1
+    exact ⟨q, R_of_Q' q (by simp [prec]), RP_of_Q' q (by simp [prec])⟩
+  · intro e ih
+    exact PSt_of (fun b h => QS_expr (ih (by simpa [SWFp] using h)).1)
+  · exact PSt_of (fun _ _ => QS_empty)
+  · intro items ih
+    exact PSt_of (fun b h =>
+      QS_block (fun s hs => (ih s hs).2 (WF_items (by simpa [SWFp] using h) s hs)))
+  · intro c t ihc iht
+    refine PSt_of (fun b h => ?_)
+    simp [SWFp] at h
+    exact QS_if (ihc h.1).1 (iht.1 h.2)
+  · intro c t e ihc iht ihe
+    refine PSt_of (fun b h => ?_)
+    simp [SWFp] at h
+    exact QS_ifElse (ihc h.1.1.1).1 (iht.1 h.1.1.2) (ihe.1 h.2) h.1.2
+  · intro i c s b ihi ihc ihs ihb
+    refine PSt_of (fun x h => ?_)
+    simp [SWFp] at h
+    exact QS_for (ihi h.1.1.1).1 (ihc h.1.1.2).1 (ihs h.1.2).1 (ihb.1 h.2)
+  · intro t x
+    exact ⟨fun h => by simp [SWFp] at h, fun _ => QI_decl t x⟩
+  · intro t x e ih
+    refine ⟨fun h => by simp [SWFp] at h, fun h => ?_⟩
+    simp [SWFp] at h
+    exact QI_declInit (ih h).1
 
 /-- **Round trip**: parsing the minimal-parenthesis print of any well-formed tree gives the tree
     back (unbounded depth, all constructors including calls). -/
 theorem refParse_print (e : CExpr) (h : WF e = true) : refParseAll (printE e) = some e := by
-  have q := (main e h).1 0 [] (by omega) trivial
+  have q := (main.1 e h).1 0 [] (by omega) trivial
   simp only [List.append_nil] at q
   have h1 := q (fuelFor (pr 0 e)) (by unfold fuelFor; omega)
   unfold refParseAll refParse printE
@@ -769,7 +1149,6 @@ end facts
 `pr c x` is the operand `x` printed for a context of level `c`, i.e. parenthesised iff it binds
 looser than `c`; for an atom it is just `[atom s]`. -/
 
-theorem pr_zero (e) : pr 0 e = body e := pr_of_le (Nat.zero_le _)
 theorem pr_assign (s a b) : pr 0 (.assign s a b) = pr 13 a ++ .op s :: pr 0 b := by
   rw [pr_zero]; simp only [body, paren_eq_pr]
 theorem pr_tern {k} (c a b) (h : k ≤ 1) :
